@@ -21,6 +21,10 @@
 (*                                         was handled; res = entities for  *)
 (*                                         which SearchResultEvent came     *)
 (*   result   e                            SearchResultEvent outside a reply*)
+(*   rin      h, tk                        a PeerSearchReply with ticket tk *)
+(*                                         is delivered on a connection     *)
+(*                                         whose close is being held        *)
+(*   rdone    h                            the handling of that reply ended *)
 (*   removed  e                            SearchRequestRemovedEvent        *)
 (*   wlmsg    ival                         WishlistInterval from the server *)
 (*   looperr  exc, tk                      the loop exception handler ran   *)
@@ -45,7 +49,7 @@ Traces == JsonDeserialize(IOEnv.TRACE_FILE)
 VARIABLES tid, l
 
 tvars == <<vars, tid, l>>
-frozen == <<gen, tmo, handle, task, ready, wl, nops, rt, wt>>
+frozen == <<gen, tmo, handle, task, ready, wl, hc, nops, rt, wt>>
 
 T == Traces[tid]
 Rec == T[l]
@@ -63,6 +67,7 @@ TInit ==
   /\ ticket = [e \in Ents |-> 0]
   /\ armed = [e \in Ents |-> FALSE]
   /\ adl = [e \in Ents |-> 0]
+  /\ hs = <<>> /\ hc = <<>>
   /\ requests = {}
   /\ gen = [mgr |-> 1, cli |-> 1]
   /\ tmo = [e \in Ents |-> 0]
@@ -73,7 +78,18 @@ TInit ==
   /\ nops = 0
   /\ op = Op("init", 0, 0) /\ out = <<>> /\ ran = 0 /\ errs = 0 /\ q = TRUE
 
-Events == {"create", "remove", "reply", "result", "removed", "wlmsg", "looperr",
+\* Which of several replies in flight with the same ticket a result event answered is not
+\* observable (A_Credit picks one): when the handling of reply h, which is entitled to a
+\* result, ends without a credit while
+\* another reply with its ticket that is still in flight holds one, the credit is h's.
+Regroup(K, h) ==
+  LET donors == {x \in 1..Len(K.hs) : x # h /\ K.hs[x].open /\ K.hs[x].tk = K.hs[h].tk /\ K.hs[x].n = 1} IN
+  IF K.hs[h].n = 0 /\ K.hs[h].cont # 0 /\ donors # {}
+    THEN LET x == CHOOSE y \in donors : \A z \in donors : y <= z IN
+         [K EXCEPT !.hs[h].n = 1, !.hs[x].n = 0]
+    ELSE K
+
+Events == {"create", "remove", "reply", "result", "rin", "rdone", "removed", "wlmsg", "looperr",
            "tnew", "tstart", "tresched", "tcancel", "fire", "opexc", "quiet"}
 
 \* what every record does
@@ -102,8 +118,17 @@ Apply(r) ==
         /\ out' = [i \in 1..Len(r.res) |-> Ev("result", r.res[i])]
         /\ ran' = 0 /\ errs' = errs /\ NoEffect
      \/ /\ r.ev = "result"
+        /\ SetAbs(A_Credit(Abs, r.e))
         /\ op' = Op("none", 0, 0) /\ out' = <<Ev("result", r.e)>>
-        /\ ran' = 0 /\ errs' = errs /\ NoEffect
+        /\ ran' = 0 /\ errs' = errs /\ UNCHANGED srvIval
+     \/ /\ r.ev = "rin"
+        /\ SetAbs(A_ReplyIn(Abs, r.tk))
+        /\ op' = Op("rheld", r.h, r.tk) /\ out' = <<>>
+        /\ ran' = 0 /\ errs' = errs /\ UNCHANGED srvIval
+     \/ /\ r.ev = "rdone"
+        /\ SetAbs(A_ReplyDone(Regroup(Abs, r.h), r.h))
+        /\ op' = Op("none", 0, 0) /\ out' = <<>>
+        /\ ran' = 0 /\ errs' = errs /\ UNCHANGED srvIval
      \/ /\ r.ev = "removed"
         /\ SetAbs(A_Expire(Abs, r.e))
         /\ op' = Op("none", 0, 0) /\ out' = <<Ev("removed", r.e)>>
@@ -142,6 +167,8 @@ WellFormed(r) ==
   /\ r.ev \in {"tstart", "tresched", "tcancel", "fire"} => r.e \in Ents /\ kind[r.e] = "bare"
   /\ r.ev = "tstart" => ~armed[r.e]
   /\ r.ev = "reply" => \A i \in 1..Len(r.res) : r.res[i] \in Ents
+  /\ r.ev = "rin" => r.h = Len(hs) + 1
+  /\ r.ev = "rdone" => r.h \in 1..Len(hs) /\ hs[r.h].open
 
 \* the first property the step breaks, "ok" if none
 Judge(r) ==
